@@ -476,6 +476,34 @@ func runJoinScenario(w *ndWriter, c joinCase, seed int64, steps int) {
 	if run.mid != nil {
 		run.mid.Close()
 	}
+	// a join requested on bases that have shut down: an error (or a join that is itself done), never a zombie
+	for _, b := range []baseCtl{run.src, run.dst} {
+		select {
+		case <-b.Done():
+		case <-time.After(3 * time.Second):
+		}
+	}
+	late := make(chan string, 1)
+	go func() {
+		nrun, err := restartJoin(ctx, c, run)
+		if err != nil {
+			late <- "error"
+			return
+		}
+		nrun.stopEvents()
+		select {
+		case <-nrun.joinDone:
+			late <- "done"
+		case <-time.After(2 * time.Second):
+			nrun.closeJoin()
+			late <- "alive"
+		}
+	}()
+	lateRes := "blocked"
+	select {
+	case lateRes = <-late:
+	case <-time.After(4 * time.Second):
+	}
 	cancel()
 	for i := 0; i < 400; i++ {
 		if n, _ := libGoroutineCount(); n == 0 {
@@ -484,7 +512,7 @@ func runJoinScenario(w *ndWriter, c joinCase, seed int64, steps int) {
 		time.Sleep(5 * time.Millisecond)
 	}
 	n, _ := libGoroutineCount()
-	emit("join.end", fmt.Sprintf(`"leak":%d`, n))
+	emit("join.end", fmt.Sprintf(`"leak":%d,"late_join":%q`, n, lateRes))
 }
 
 // restartJoin creates a new join over the base controllers of an earlier run.
